@@ -1,4 +1,5 @@
 import PxModel.Parser
+import PxModel.ProxyProtocol
 import PxModel.Generated
 /-
   Handler-level model of the first-request phase of a client connection:
@@ -44,6 +45,8 @@ inductive PluginRes
 
 structure Cfg where
   pcfg : Px.Parser.Cfg := {}
+  /-- `flags.enable_proxy_protocol` (`--enable-proxy-protocol`): a PROXY v1 line precedes the request -/
+  proxyProtocol : Bool := false
   /-- `flags.plugins[b'HttpProtocolHandlerPlugin']`: `protocols()` of each class, in order -/
   plugins : List (List Nat) := []
   /-- `plugin.on_request_complete()` of plugin `pid` on the completed request -/
@@ -73,10 +76,12 @@ structure St where
   escaped : Bool := false
   /-- number of `on_client_data` calls so far -/
   calls : Nat := 0
+  /-- `request.protocol` once its line was parsed (`none`: flag off, or line still pending) -/
+  pp : Option Px.PP.PP := none
   deriving DecidableEq, Repr
 
 inductive Why
-  | parse (e : Px.Parser.Err)      -- request.parse raised (any exception)
+  | parse (e : Px.PP.PErr)         -- request.parse raised (any exception)
   | unknownProtocol                -- http_handler_protocol == UNKNOWN
   | noPlugin (proto : Proto)       -- no enabled plugin handles the protocol
   | pluginRaised (pid : Nat)       -- the selected plugin raised an HttpProtocolException
@@ -112,16 +117,29 @@ def leftover (rq : Parser) : Option Bytes :=
   | some x => if x.isEmpty then none else some x
   | none => none
 
+/-- `self.request.parse(data)`: the request parser after the call (with the flag on, the PROXY
+    line is consumed first) -/
+def reqParse (cfg : Cfg) (st : St) (data : Bytes) : Except Px.PP.PErr Parser :=
+  match Px.PP.parseWith cfg.pcfg cfg.proxyProtocol st.pp st.request data with
+  | .ok r => .ok r.1
+  | .error e => .error e
+
+/-- `self.request.protocol` after that call -/
+def ppNext (cfg : Cfg) (st : St) (data : Bytes) : Option Px.PP.PP :=
+  match Px.PP.parseWith cfg.pcfg cfg.proxyProtocol st.pp st.request data with
+  | .ok r => r.2
+  | .error _ => st.pp
+
 /-- `_parse_first_request(data)` together with the `except HttpProtocolException` arm of
     `handle_data` that catches what it raises.  Third component: `handle_data`'s return value. -/
 def parseFirst (cfg : Cfg) (st : St) (data : Bytes) : St × Outcome × Bool :=
-  match Px.Parser.parse cfg.pcfg st.request data with
+  match reqParse cfg st data with
   | .error e =>
     -- `except HttpProtocolException` / `except Exception`: queue BAD_REQUEST, raise a (base)
     -- HttpProtocolException; its response() is None, so handle_data queues nothing more
     ({ st with buffer := st.buffer ++ [cfg.badRequest] }, .reject (.parse e) [cfg.badRequest], true)
   | .ok rq =>
-    let st := { st with request := rq }
+    let st := { st with request := rq, pp := ppNext cfg st data }
     if rq.state != .complete then (st, .wait, false)
     else
       let proto := handlerProtocol rq
